@@ -15,6 +15,7 @@ Statements:
   ['let', lv, e]  ['midset', lv, s, n|None, e]  ['lset', lv, e]  ['rset', lv, e]  ['swap', lv, lv]
   ['erase', 'S$']  ['dim', 'S$', n]  ['clear', None | k]   (k: CLEAR ,var_start+514+k -> k bytes free)
   ['def', 'A$', ['X$', ...], body]
+  ['input', [lv, ...], [typed, ...]]   INPUT lv,...  with the line typed at the prompt (str for string fields, int)
 A step is {'d': 0|1, 's': stmt}: d=1 runs the statement as a direct-mode line.
 """
 import struct
@@ -119,6 +120,8 @@ def b_stmt(st, var_start=None):
         if st[1] is None:
             return 'CLEAR'
         return 'CLEAR ,%d' % (var_start + 514 + st[1])
+    if k == 'input':
+        return 'INPUT %s' % ','.join(b_lv(l) for l in st[1])
     if k == 'def':
         ps = '(%s)' % ','.join(st[2]) if st[2] else ''
         return 'DEF FN%s%s=%s' % (st[1], ps, b_expr(st[3]))
@@ -256,6 +259,9 @@ def run_impl(case, limit_s=120):
                 err = [0, 0]
                 del fre_log[:]
                 try:
+                    if step['s'][0] == 'input':
+                        typed = ','.join(w if isinstance(w, str) else '%d' % w for w in step['s'][2])
+                        impl.keyboard.inject_keystrokes(typed + '\r')
                     if is_direct(step):
                         s.execute(b_stmt(step['s'], cfg['var_start']))
                     else:
@@ -371,6 +377,10 @@ class CoqPrinter(object):
             return '(SDim %d %s)' % (nid(st[1]), c_z(st[2]))
         if k == 'clear':
             return '(SClear %s)' % c_opt(st[1], c_z)
+        if k == 'input':
+            return '(SInput [%s] [%s])' % (
+                ';'.join(self.lv(l) for l in st[1]),
+                ';'.join('(IStr %s)' % zl(w.encode('latin1')) if isinstance(w, str) else '(INum %s)' % c_z(w) for w in st[2]))
         if k == 'def':
             return '(SDef %d [%s] %s)' % (nid(st[1]), ';'.join('%d' % nid(norm(p)) for p in st[2]), X(st[3]))
         raise ValueError(st)
@@ -700,6 +710,14 @@ class Ref(object):
             self.sv.clear()
             self.arr.clear()
             self.fns.clear()
+        elif k == 'input':
+            upto = st[3] if len(st) > 3 else len(st[1])      # oracle: only the first `upto` variables get assigned
+            for lv, w in list(zip(st[1], st[2]))[:upto]:
+                v = sv(w.encode('latin1')) if isinstance(w, str) else ('%', w)
+                self._visit(v)
+                v = _conv(lv[1][-1], v)
+                self.pre(lv)
+                self.lv_set(lv, v)
         elif k == 'def':
             if direct:
                 raise RefError(E_ILLDIRECT)
@@ -757,6 +775,18 @@ def check_trace(case, res, strict_fre=True):
             # memory failure (or the recursion error): the statement has no effect on values, except that
             # arrays may have been auto-dimensioned and a function is defined before its memory is claimed
             ref.restore(snap)
+            if st[0] == 'input':
+                # the variables before the one whose creation failed have been assigned: find the prefix
+                for j in range(len(st[1]) + 1):
+                    ref.restore(snap)
+                    try:
+                        ref.exec(list(st[:3]) + [j], direct, exists, ())
+                    except RefError:
+                        continue
+                    if all(bytes((o['sv'][n] or (0, 0, b''))[2] or b'') == bytes(ref.get(n)) for n in STR_SCALARS):
+                        break
+                else:
+                    ref.restore(snap)
             if st[0] == 'def' and not direct:
                 ref.fns[st[1]] = ([norm(p) for p in st[2]], st[3])
             for n in STR_ARRAYS:
@@ -842,6 +872,7 @@ class Gen(object):
         self.big = big
         self.badw = badw            # probability of a deliberately ill-typed / out-of-range operand
         self.dupw = 0.25            # probability that a parameter list repeats a name
+        self.inputw = 0.06          # weight of console INPUT statements
 
     def lit(self):
         rng = self.rng
@@ -962,6 +993,17 @@ class Gen(object):
             return ['dim', rng.choice(STR_ARRAYS), rng.choice([0, 1, 3, 5, 12])]
         if r < 0.805:
             return ['clear', rng.choice([None, None, mem])]
+        if r < 0.805 + self.inputw:
+            k = rng.choice([1, 2, 2, 3])
+            lvs, vals = [], []
+            for _ in range(k):
+                if rng.random() < 0.8:
+                    lvs.append(self.lv())
+                    vals.append(''.join(rng.choice('abcdefgh0123') for _ in range(rng.choice([0, 1, 2, 3, 5, 8, 20, 40]))))
+                else:
+                    lvs.append(['sv', rng.choice(NUM_SCALARS)])
+                    vals.append(rng.choice([0, 1, 7, 300, 32767]))
+            return ['input', lvs, vals]
         if r < 0.90:
             return ['let', ['sv', rng.choice(['Q!', 'R!', 'D#'])],
                     ['fre', rng.choice([['lit', ''], ['lit', ''], ['num', 0, '%'], ['sv', rng.choice(STR_SCALARS)]])]]
